@@ -343,10 +343,15 @@ func genC01(seed int64, tier string) *Scenario {
 	}
 	// faults stop; after that every request must be answered within the budget
 	sc.Ops = append(sc.Ops, Op{Kind: "clearfaults"}, Op{Kind: "deliver"}, Op{Kind: "settle"})
-	for n, cur := range open {
-		p := randPosIn(cur)
+	var openNames []string
+	for n := range open {
+		openNames = append(openNames, n)
+	}
+	sort.Strings(openNames) // never let Go's map order decide anything in a generator
+	if len(openNames) > 0 {
+		n := openNames[r.Intn(len(openNames))]
+		p := randPosIn(open[n])
 		sc.Ops = append(sc.Ops, Op{Kind: "req", Method: "hover", Path: n, Pos: &p}, Op{Kind: "req", Method: "completion", Path: n, Pos: &p})
-		break
 	}
 	sc.Ops = append(sc.Ops, Op{Kind: "req", Method: "workspaceSymbol", Arg: "f"})
 	switch r.Intn(6) {
